@@ -174,11 +174,12 @@ class ProductState:
                 # Constructing the einsum str
                 einsum = ESC.measure_vector(remaining_states, [state])
 
-                # Project the state with einsum string
-                projected_state = jnp.einsum(einsum, ps)
+                # Marginal distribution: sum the probabilities (not the
+                # amplitudes) over the states which are not measured
+                projected_state = jnp.einsum(einsum, jnp.abs(ps) ** 2)
 
                 # Outcome Probabilities
-                probabilities = jnp.abs(projected_state.flatten()) ** 2
+                probabilities = projected_state.flatten()
                 probabilities /= jnp.sum(probabilities)
 
                 # Decide on output
